@@ -23,11 +23,11 @@ SimAlloc SA;
 enum CtlOp
 {
     P_STEP, P_STEPS, P_SETPOINT, P_RETUNE, P_MODE, P_ZERO, P_SENSOR_FAULT, P_WPID, P_OPR, // C12
-    F_INPUT, F_INPUTS, F_ZERO, F_QUIET, F_GEN,                                               // C16
+    F_INPUT, F_INPUTS, F_ZERO, F_QUIET, F_GEN, F_SETNUM, F_SETDEN,                           // C16
     CTL__COUNT
 };
 static char const *const CTL_OP_NAMES[] = {"step", "steps", "setpoint", "retune", "mode", "zero", "sensor_fault", "wpid", "opr",
-                                           "input", "inputs", "fzero", "quiet", "gen"};
+                                           "input", "inputs", "fzero", "quiet", "gen", "setnum", "setden"};
 
 static inline uint64_t mag64(int64_t v) { return (uint64_t)(v < 0 ? -v : v); }
 // exact regime: multiples of 1/8 within +-64.  general regime: m * 2^e, |m| < 1024, e in [-24, 20]
@@ -70,6 +70,7 @@ struct PidSim
     // reference model of the plain controller (long double, documented equations)
     struct Ref { long double sum = 0, out = 0, var = 0, fdb = 0, err = 0; } ref;
     uint64_t tabseed = 1;
+    unsigned nulltab = 0; // bit 0/1/2: the kp / ki / kd rule base is absent (NULL), which the API allows
 
     explicit PidSim(Ctx &c_) : c(c_) {}
 
@@ -163,7 +164,7 @@ struct PidSim
         {
             c.site("a_pid_fuzzy_set_opr"); a_pid_fuzzy_set_opr(u.fz, opr);
             c.site("a_pid_fuzzy_set_bfuzz"); a_pid_fuzzy_set_bfuzz(u.fz, u.bfuzz, nfuzz);
-            c.site("a_pid_fuzzy_set_rule"); a_pid_fuzzy_set_rule(u.fz, order, me, mec, mkp, mki, mkd);
+            c.site("a_pid_fuzzy_set_rule"); a_pid_fuzzy_set_rule(u.fz, order, me, mec, (nulltab & 1) ? nullptr : mkp, (nulltab & 2) ? nullptr : mki, (nulltab & 4) ? nullptr : mkd);
             c.site("a_pid_fuzzy_set_kpid"); a_pid_fuzzy_set_kpid(u.fz, kp, ki, kd);
         }
         else
@@ -216,7 +217,7 @@ struct PidSim
         if (ctype == 0) { u.pid->set_kpid(kp, ki, kd); u.pid->init(); }
         else if (ctype == 1)
         {
-            u.fz->set_opr(opr); u.fz->set_bfuzz(u.bfuzz, nfuzz); u.fz->set_rule(order, me, mec, mkp, mki, mkd); u.fz->set_kpid(kp, ki, kd); u.fz->init();
+            u.fz->set_opr(opr); u.fz->set_bfuzz(u.bfuzz, nfuzz); u.fz->set_rule(order, me, mec, (nulltab & 1) ? nullptr : mkp, (nulltab & 2) ? nullptr : mki, (nulltab & 4) ? nullptr : mkd); u.fz->set_kpid(kp, ki, kd); u.fz->init();
             if (u.fz->bfuzz() != u.bfuzz || a_pid_fuzzy_bfuzz(u.fz) != u.bfuzz) c.fail("scratch-buffer-accessor-wrong", "a_pid_fuzzy_bfuzz", "the scratch-buffer accessor does not return the buffer that was installed");
         }
         else { u.nr->set_kpid(nk, kp, ki, kd); u.nr->set_wpid(wp, wi, wd); u.nr->init(); }
@@ -279,6 +280,7 @@ struct PidSim
         if (ae > nfuzz || aec > nfuzz) amb = true; // would overrun the scratch buffer: excluded by construction, never expected
         if (sw > 0 && sw < 1e-9) amb = true;
         g[0] = kp; g[1] = ki; g[2] = kd;
+        if (nulltab & 1) skp = 0; if (nulltab & 2) ski = 0; if (nulltab & 4) skd = 0; // an absent rule base contributes nothing
         if (sw > 0) { g[0] = (double)(kp + skp / sw); g[1] = (double)(ki + ski / sw); g[2] = (double)(kd + skd / sw); }
         else if (ae && aec) c.st.add("probe.fuzzy_zero_total_firing_strength");
         if (!ae || !aec) c.st.add("probe.fuzzy_no_set_active");
@@ -421,6 +423,8 @@ struct PidSim
         mode = (int)p.knob("mode", 1) % 3; if (ctype == 2 && mode == 1) mode = 2;
         order = (unsigned)std::max<int64_t>(1, std::min<int64_t>(7, p.knob("order", 3))); family = (int)p.knob("family", 0) % 8; opr = (unsigned)(p.knob("opr", 0) % 7);
         tabseed = (uint64_t)p.knob("tabseed", 1);
+        nulltab = (unsigned)(p.knob("nulltab", 0) & 7);
+        if (nulltab && ctype == 1) c.st.add("probe.fuzzy_rule_base_absent");
         kp = value_of(regime, p.knob("kp"), p.knob("kp_e")); ki = std::fabs(value_of(regime, p.knob("ki"), p.knob("ki_e"))); kd = value_of(regime, p.knob("kd"), p.knob("kd_e"));
         if (ctype == 1 && regime == 0) { kp /= 2; kd /= 8; }
         summax = std::fabs(value_of(regime, p.knob("summax"), p.knob("lim_e"))); summin = -std::fabs(value_of(regime, p.knob("summin"), p.knob("lim_e")));
@@ -537,25 +541,26 @@ struct TfSim
     F M, Y, L, D, MM; // main, second input, linear combination, delayed, and one driven through the C++ members
     int la = 1, lb = 1; unsigned delay = 1;
     std::deque<double> dq;
-    std::vector<long double> xs, ys, xs2, ys2; // histories since the last reset (reference)
-    bool exact = true;
-    std::vector<double> outM; // outputs of M since last reset
+    // reference state: explicit delay lines (newest first), exactly what the documented difference equation needs
+    std::vector<long double> xs, ys, xs2, ys2;
+    bool exact = true, shift_valid = true;
+    std::vector<long double> outM; // reference outputs of the main filter since the last point at which the delayed replica was in step
 
     void mk(F &f)
     {
         f.in = (double *)SA.halloc(nn * sizeof(double)); f.out = (double *)SA.halloc(dn * sizeof(double));
-        for (unsigned i = 0; i < nn; ++i) f.in[i] = 777.5; for (unsigned i = 0; i < dn; ++i) f.out[i] = -333.25; // init must clear them
+        for (unsigned i = 0; i < nn; ++i) f.in[i] = 777.5;
+        for (unsigned i = 0; i < dn; ++i) f.out[i] = -333.25; // init must clear them
         c.site("a_tf_init");
         a_tf_init(&f.tf, nn, num, f.in, dn, den, f.out);
     }
     long double ref_step(std::vector<long double> &X, std::vector<long double> &Yh, long double x)
     {
-        X.push_back(x);
+        if (nn) { X.insert(X.begin(), x); X.resize(nn); }
         long double yv = 0;
-        size_t const k = X.size() - 1;
-        for (unsigned i = 0; i < nn && i <= k; ++i) yv += (long double)num[i] * X[k - i];
-        for (unsigned i = 0; i < dn && i < Yh.size(); ++i) yv -= (long double)den[i] * Yh[Yh.size() - 1 - i];
-        Yh.push_back(yv);
+        for (unsigned i = 0; i < nn; ++i) yv += (long double)num[i] * X[i];
+        for (unsigned i = 0; i < dn; ++i) yv -= (long double)den[i] * Yh[i];
+        if (dn) { Yh.insert(Yh.begin(), yv); Yh.resize(dn); }
         return yv;
     }
     // exact range: strict equality with the full-history reference; outside it only the main filter is checked,
@@ -582,6 +587,7 @@ struct TfSim
         double const ymm = MM.tf(x); // a_tf::operator()
         if (bits_of(ymm) != bits_of(ym)) return c.fail("cxx-wrapper-disagrees", "a_tf_iter", "a_tf::operator() gives %.17g, a_tf_iter %.17g on the same history", ymm, ym);
         ++c.steps;
+        xs.resize(nn, 0); xs2.resize(nn, 0); ys.resize(dn, 0); ys2.resize(dn, 0);
         long double const rm = ref_step(xs, ys, x), ry = ref_step(xs2, ys2, x2);
         if (exact && (fabsl(rm) >= 0x1p45L || fabsl(ry) >= 0x1p45L || !std::isfinite((double)rm))) { exact = false; c.st.add("probe.tf_left_exact_range"); }
         if (!(fabsl((long double)ym - w1) <= sc * 0x1p-40L)) return c.fail("difference-equation-violated", "a_tf_iter", "output %.17g, sum over the delay lines gives %.17Lg", ym, w1);
@@ -590,10 +596,10 @@ struct TfSim
         if (!cmp(ym, rm, "difference-equation-violated", "main filter")) return false;
         if (!cmp(yy, ry, "difference-equation-violated", "second filter")) return false;
         if (!cmp(yl, la * rm + lb * ry, "not-linear", "filter fed a*x+b*y vs a*F(x)+b*F(y)")) return false;
-        outM.push_back(ym);
+        outM.push_back(rm);
         size_t const k = outM.size() - 1;
-        long double const wantd = k >= delay ? ys[k - delay] : 0;
-        if (!cmp(yd, wantd, "not-time-invariant", "filter fed the input delayed by d samples")) return false;
+        long double const wantd = k >= delay ? outM[k - delay] : 0;
+        if (shift_valid && !cmp(yd, wantd, "not-time-invariant", "filter fed the input delayed by d samples")) return false;
         if (exact) c.st.add("probe.tf_exact_steps");
         c.obs(bits_of(ym));
         { int e1 = 0; std::frexp(ym, &e1); c.st.state(fnv_mix(fnv_mix(fnv_mix(FNV0, nn * 16 + dn), (uint64_t)(e1 + 2000) * 2 + (ym > 0)), (uint64_t)exact * 64 + (outM.size() > 63 ? 63 : outM.size()))); }
@@ -603,7 +609,7 @@ struct TfSim
     {
         c.site("a_tf_zero");
         a_tf_zero(&M.tf); a_tf_zero(&Y.tf); a_tf_zero(&L.tf); a_tf_zero(&D.tf); MM.tf.zero();
-        dq.clear(); xs.clear(); ys.clear(); xs2.clear(); ys2.clear(); outM.clear(); exact = true;
+        dq.clear(); xs.assign(nn, 0); ys.assign(dn, 0); xs2.assign(nn, 0); ys2.assign(dn, 0); outM.clear(); exact = true; shift_valid = true;
         c.st.add("fault.reset_zero");
     }
     void exec(Plan const &p)
@@ -621,7 +627,8 @@ struct TfSim
         MM.in = (double *)SA.halloc(nn * sizeof(double)); MM.out = (double *)SA.halloc(dn * sizeof(double));
         for (unsigned i = 0; i < nn; ++i) MM.in[i] = 1.5;
         for (unsigned i = 0; i < dn; ++i) MM.out[i] = -2.5;
-        MM.tf.set_num(nn, num, MM.in); MM.tf.set_den(dn, den, MM.out); // the two-call form of init
+        if (p.knob("member_init", 0)) MM.tf.init(nn, num, MM.in, dn, den, MM.out); // a_tf::init
+        else { MM.tf.set_num(nn, num, MM.in); MM.tf.set_den(dn, den, MM.out); } // the two-call form
         for (size_t i = 0; i < p.ops.size() && c.ok(); ++i)
         {
             Op const &o = p.ops[i];
@@ -634,6 +641,27 @@ struct TfSim
             case F_INPUTS: { size_t n = 1 + (size_t)(mag64(o.a[2]) % 24); for (size_t k = 0; k < n && c.ok(); ++k) feed((double)((int64_t)((mag64(o.a[0]) + k * 31) % 129) - 64), (double)((int64_t)((mag64(o.a[1]) + k * 17) % 129) - 64)); break; }
             case F_ZERO: reset_all(); break;
             case F_QUIET: { size_t n = 1 + (size_t)(mag64(o.a[1]) % 16); double cst = (double)((int64_t)(mag64(o.a[0]) % 9) - 4); for (size_t k = 0; k < n && c.ok(); ++k) feed(cst, 0); break; }
+            case F_SETNUM: case F_SETDEN:
+            { // re-point the numerator (or denominator) of a running filter: that side's delay line restarts from zero, the other side keeps its history
+                bool const isnum = o.kind == F_SETNUM;
+                unsigned const newn = (unsigned)(mag64(o.a[0]) % 9);
+                uint64_t const cs2 = mag64(o.a[1]);
+                double *co = (double *)SA.halloc(newn * sizeof(double));
+                for (unsigned i = 0; i < newn; ++i) co[i] = isnum ? (double)((int64_t)(splitmix64(cs2 + i) % 17) - 8) : (double)((int64_t)(splitmix64(cs2 + 100 + i) % 5) - 2);
+                F *all[5] = {&M, &Y, &L, &D, &MM};
+                for (F *f : all)
+                {
+                    double *line = (double *)SA.halloc(newn * sizeof(double));
+                    for (unsigned i = 0; i < newn; ++i) line[i] = 55.5; // must be cleared by the call
+                    if (isnum) { c.site("a_tf_set_num"); if (f == &MM) f->tf.set_num(newn, co, line); else a_tf_set_num(&f->tf, newn, co, line); SA.hfree(f->in); f->in = line; }
+                    else { c.site("a_tf_set_den"); if (f == &MM) f->tf.set_den(newn, co, line); else a_tf_set_den(&f->tf, newn, co, line); SA.hfree(f->out); f->out = line; }
+                }
+                if (isnum) { SA.hfree(num); num = co; nn = newn; xs.assign(nn, 0); xs2.assign(nn, 0); dq.clear(); }
+                else { SA.hfree(den); den = co; dn = newn; ys.assign(dn, 0); ys2.assign(dn, 0); }
+                shift_valid = false; // the delayed replica is no longer a pure time shift of the main one until the next full reset
+                c.st.add(isnum ? "fault.numerator_replaced_mid_run" : "fault.denominator_replaced_mid_run");
+                break;
+            }
             default: break;
             }
             if (uint64_t bad = SA.check_guards()) c.fail("guard-damaged", "a_tf_iter", "bytes next to block #%llu were overwritten", (unsigned long long)bad);
@@ -787,6 +815,7 @@ struct CtlEngine : Engine
             p.set("ctype", r.pick(CT)); p.set("regime", r.chance(1, 2)); p.set("plant", (int64_t)r.below(3)); p.set("mode", (int64_t)r.below(3));
             p.set("pair", r.chance(1, 2));
             p.set("order", (int64_t)r.range(1, 7)); p.set("family", (int64_t)r.below(8)); p.set("opr", (int64_t)r.below(7)); p.set("tabseed", (int64_t)r.below(1u << 30));
+            p.set("nulltab", r.chance(1, 3) ? (int64_t)r.below(8) : 0);
             for (char const *k : {"kp", "ki", "kd", "summax", "summin", "outmax", "outmin", "nk", "wp", "wi", "wd"}) p.set(k, (int64_t)r.below(2047));
             // small gains are the common case; keep ki small so that integration lasts a while
             if (r.chance(2, 3)) p.set("ki", 512 + (int64_t)r.below(9));
@@ -795,6 +824,12 @@ struct CtlEngine : Engine
             p.set("kp_e", (int64_t)r.below(45)); p.set("ki_e", (int64_t)r.below(45)); p.set("kd_e", (int64_t)r.below(45)); p.set("lim_e", 10 + (int64_t)r.below(35));
             bool en[9]; for (int k = 0; k < 9; ++k) en[k] = r.chance(1, 2);
             en[P_STEP] = true;
+            if (p.knob("pair") && p.knob("ctype") == 0 && p.knob("regime") == 0 && r.chance(3, 4))
+            { // a configuration in which the positional / incremental pair can run for a long time: small gains, wide limits
+                p.set("kp", 512 + (int64_t)r.below(17) - 8); p.set("ki", 512 + (int64_t)r.below(3)); p.set("kd", 512 + (int64_t)r.below(9) - 4);
+                p.set("outmax", 1024); p.set("outmin", 0); p.set("summax", 1024); p.set("summin", 0); p.set("mode", 1); p.set("plant", (int64_t)r.below(2));
+                if (r.chance(2, 3)) en[P_RETUNE] = en[P_MODE] = en[P_ZERO] = false;
+            }
             std::vector<int> kinds;
             for (int k = 0; k <= P_OPR; ++k) if (en[k]) { kinds.push_back(k); if (k <= P_STEPS) { kinds.push_back(k); kinds.push_back(k); kinds.push_back(k); } if (k == P_SETPOINT) kinds.push_back(k); }
             int64_t const nops = r.geolen(3, 120);
@@ -813,12 +848,14 @@ struct CtlEngine : Engine
             {
                 p.set("num_n", (int64_t)r.below(9)); p.set("den_n", (int64_t)r.below(9)); p.set("coefseed", (int64_t)r.below(1u << 30));
                 p.set("la", (int64_t)r.range(-4, 4)); p.set("lb", (int64_t)r.range(-4, 4)); p.set("delay", (int64_t)r.below(6));
+                p.set("member_init", r.chance(1, 2));
             }
             else { p.set("regime", r.chance(1, 2)); p.set("alpha", (int64_t)r.below(1001)); }
             std::vector<int> kinds = {F_INPUT, F_INPUT, F_INPUT, F_INPUTS, F_INPUTS};
             if (r.chance(1, 2)) kinds.push_back(F_ZERO);
             if (r.chance(1, 2)) kinds.push_back(F_QUIET);
             if (!tf && r.chance(1, 2)) kinds.push_back(F_GEN);
+            if (tf && r.chance(1, 3)) { kinds.push_back(F_SETNUM); kinds.push_back(F_SETDEN); }
             int64_t const nops = r.geolen(2, tf ? 24 : 60);
             for (int64_t i = 0; i < nops; ++i)
             {
